@@ -27,7 +27,7 @@ var ClientPool = []string{"10.0.0.1", "10.0.0.2", "10.0.1.1", "192.0.2.7", "2001
 
 // GenOpts tunes GenWorld.
 type GenOpts struct {
-	Wide          bool // also emit ill-formed-but-accepted shapes (CNAME+data, SOA without NS, upper-case rdata ...)
+	Wide          bool // also emit unusual-but-accepted shapes (CNAME next to data, duplicate lines, upper-case rdata names)
 	NoMaps        bool // no M/8/% lines
 	NoRootWildMap bool // do not declare a wildcard map at the root ("M*.")
 	MaxLines      int
@@ -437,9 +437,7 @@ func (b *worldBuilder) records() {
 		k := rapid.IntRange(0, 3).Draw(b.t, "nwide")
 		for i := 0; i < k; i++ {
 			owner := b.owner("wown")
-			switch rapid.IntRange(0, 2).Draw(b.t, "widekind") {
-			case 0: // SOA without NS
-				b.add(Line{K: 'Z', Owner: owner, X: "ns1." + owner, Adm: "h." + owner, TTL: -1, Loc: b.loc("wloc", 30), N: none})
+			switch rapid.IntRange(1, 2).Draw(b.t, "widekind") {
 			case 1: // duplicate of an existing line
 				if len(b.w.Lines) > 0 {
 					b.add(b.w.Lines[rapid.IntRange(0, len(b.w.Lines)-1).Draw(b.t, "dup")])
